@@ -137,7 +137,7 @@ class RotatedSweepDecoder3D(BaseDecoder):
 
     def get_default_direction(self):
         """The default direction when all faces are excited."""
-        direction = int(self._rng.choice([0, 1, 2], size=1))
+        direction = int(self._rng.choice([0, 1, 2]))
         return direction
 
     def sweep_move(
